@@ -255,3 +255,9 @@ def shrink_candidates(case):
 
 def signature(case, obs, msgs):
     return {"det": case["det"]}
+
+
+def obligations(ctx):
+    """second tie: the update() core re-translated from the source of the tree under test (harness/pytrans.py)"""
+    from .pytrans import obligations_scalar
+    yield from obligations_scalar(ctx, ["PageHinkley"])
